@@ -335,23 +335,39 @@ fn seq_of<T: Elem>(it: impl IntoIterator<Item = T>) -> Out {
     Out::Seq(it.into_iter().map(|x| x.v()).collect())
 }
 
-fn collect_into_target<P: Par>(p: P, target: Target, prefix: &[u32], spare: usize) -> Out
+/// the second step of a two-step collect_into history: a small map-only parallel collect into `c`
+fn extra_step<T: Elem, C: ParCollectInto<T>>(c: C, n: usize, threads: usize) -> C {
+    let v: Vec<T> = (0..n).filter_map(|i| T::prefix(1000 + i, (i % 16) as u32)).collect();
+    if v.is_empty() {
+        return c;
+    }
+    v.into_par().num_threads(threads).chunk_size(1).map(|x| x).collect_into(c)
+}
+
+fn collect_into_target<P: Par>(p: P, target: Target, prefix: &[u32], spare: usize, threads: usize) -> Out
 where
     P::Item: Elem,
 {
+    let (extras, extras_first) = second_step(spare as u16);
+    // the second step runs under the thread limit of the case (sequential cases stay sequential, Max(n) stays Max(n))
+    let th = threads;
     let pre = |i: usize| <P::Item as Elem>::prefix(i, prefix[i]);
     match target {
         Target::Vec => {
             let mut t: Vec<P::Item> = Vec::with_capacity(prefix.len() + spare);
             t.extend((0..prefix.len()).filter_map(pre));
+            let t = if extras_first { extra_step(t, extras, th) } else { t };
             let r = p.collect_into(t);
+            let r = if extras_first { r } else { extra_step(r, extras, th) };
             seq_of(r)
         }
         Target::Fixed => {
             let mut t: Vec<P::Item> = Vec::with_capacity(prefix.len() + spare);
             t.extend((0..prefix.len()).filter_map(pre));
             let f: FixedVec<P::Item> = t.into();
+            let f = if extras_first { extra_step(f, extras, th) } else { f };
             let r = p.collect_into(f);
+            let r = if extras_first { r } else { extra_step(r, extras, th) };
             seq_of(r)
         }
         Target::SplitDoubling => {
@@ -359,7 +375,9 @@ where
             for x in (0..prefix.len()).filter_map(pre) {
                 t.push(x);
             }
+            let t = if extras_first { extra_step(t, extras, th) } else { t };
             let r = p.collect_into(t);
+            let r = if extras_first { r } else { extra_step(r, extras, th) };
             seq_of(r)
         }
         Target::SplitLinear => {
@@ -367,7 +385,9 @@ where
             for x in (0..prefix.len()).filter_map(pre) {
                 t.push(x);
             }
+            let t = if extras_first { extra_step(t, extras, th) } else { t };
             let r = p.collect_into(t);
+            let r = if extras_first { r } else { extra_step(r, extras, th) };
             seq_of(r)
         }
     }
@@ -402,7 +422,7 @@ where
     P::Item: Elem,
 {
     Some(match &rc.term {
-        Term::CollectInto { target: Target::Vec, prefix, spare } => collect_into_target(p, Target::Vec, prefix, *spare as usize),
+        Term::CollectInto { target: Target::Vec, prefix, spare } => collect_into_target(p, Target::Vec, prefix, *spare as usize, match rc.case.final_params().0 { NtModel::Max(n) => n.max(1), NtModel::Auto => 3 }),
         Term::ForEach => {
             p.for_each(move |x| {
                 let v = x.v();
@@ -469,7 +489,7 @@ impl TermSet for Full {
                 let r = p.collect();
                 seq_of(r)
             }
-            Term::CollectInto { target, prefix, spare } => collect_into_target(p, *target, prefix, *spare as usize),
+            Term::CollectInto { target, prefix, spare } => collect_into_target(p, *target, prefix, *spare as usize, match rc.case.final_params().0 { NtModel::Max(n) => n.max(1), NtModel::Auto => 3 }),
             Term::Fold { op } => {
                 let op = *op;
                 let r = p.fold(
